@@ -2,7 +2,9 @@
    site by site) plus the part of cv.c that works on the mutex -- nsync_cv_wait* releasing the mutex, parking and
    re-acquiring it, either afresh (nsync_mu_lock / rlock) or, after wake_waiters has transferred the waiter to the
    mutex queue, through nsync_mu_lock_slow_ as the designated waker; nsync_cv_signal / broadcast and wake_waiters'
-   sites on the mutex word -- including a timeout / cancellation of the wait racing with the wake-up or the transfer.
+   sites on the mutex word -- including a timeout / cancellation of the wait racing with the wake-up or the transfer;
+   and nsync_wait_n callers on the same cv (with the mutex: enqueue, unlock, sleep, dequeue, lock; or without it), whose
+   records share the cv queue and the to_wake_lists with the native waiters and are never transferred.
    The cv spinlock is modelled by atomic sections (see the header of the model).
    wake_waiters' release of the mutex spinlock clears MU_WAITING when it leaves the mutex queue empty (clear_on_release).
    Statements only; proofs in Proof/MuXferProof.v, MuXferProof2.v, MuXferProof3.v.  The hand-off theorems (no lost
@@ -17,7 +19,7 @@ Import ListNotations.
 Local Open Scope Z_scope.
 
 (* For ANY number of threads (fewer than 2^24 - 1), ANY programs of lock / rlock / trylock / rtrylock / unlock /
-   cv-wait / signal / broadcast operations, ANY schedule, ANY choice of timeouts and of early exits of signal, ANY
+   cv-wait / nsync_wait_n / signal / broadcast operations, ANY schedule, ANY choice of timeouts and of early exits of signal, ANY
    foreign posts on the semaphores: the lock field of the mutex word is exactly the set of ghost holders -- where a
    thread becomes a holder only in the step of a successful acquiring CAS of mu.c, also when it comes back from a
    condition-variable wait by either path -- hence at most one writer and never a writer together with a reader. *)
@@ -31,8 +33,9 @@ Theorem C01x_exclusion : forall progs sched,
   excl (mw (xrun (xinit progs) sched)).
 Proof. exact xexcl_reachable. Qed.
 
-(* Every return of XWait m logged in a reachable world found the mutex held by the returning thread in mode m
-   (the log entry is written by the step that completes the wait: (declared mode, ghost [held] at that moment)). *)
+(* Every return of XWait m -- and of XWaitN (Some m), nsync_wait_n with the mutex -- logged in a reachable world found the
+   mutex held by the returning thread in mode m (the log entry is written by the step that completes the wait: (declared
+   mode, ghost [held] at that moment)). *)
 Theorem C01x_reacquire_mode : forall progs sched t m h,
   Z.of_nat (length progs) < 2 ^ 24 - 1 ->
   In (m, h) (x_rets (xget (xrun (xinit progs) sched) t)) -> h = Some m.
